@@ -53,7 +53,10 @@ class C18(Check):
         for i in range(n):
             doc = G.gen_reply_good(rng, 'm1') if i % 3 else G.gen_reply(rng, 'm1')
             flt = G.paths_filter(rng, doc) if rng.random() < 0.8 else None
-            out.append({'kind': 'sax', 'doc': doc, 'filter': flt, 'lookup': 'f' if flt else rng.choice('nu')})
+            # the filter is handed over as a string or (every third case) as an lxml element; one in five filters names the top element only
+            if flt and rng.random() < 0.2:
+                flt = '<%s/>' % G.ET.fromstring(flt).tag
+            out.append({'kind': 'sax', 'doc': doc, 'filter': flt, 'lookup': 'f' if flt else rng.choice('nu'), 'ele': i % 3 == 0})
         # every single cut of a few short streams, with and without filter, one and two replies
         base = ['<rpc-reply message-id="m1" xmlns:junos="http://xml.juniper.net/junos/1.0"><a><b>é1</b><c>x</c></a></rpc-reply>',
                 '<rpc-reply message-id="m2"><a><b>2</b></a></rpc-reply>']
@@ -70,7 +73,7 @@ class C18(Check):
             stream = ''.join(d + ']]>]]>' for d in docs).encode()
             ncuts = rng.choice([0, 0, 1, 2, 4])
             cuts = sorted(set(rng.randint(1, len(stream) - 1) for _ in range(ncuts)))
-            out.append({'kind': 'prop', 'docs': docs, 'filters': flts, 'cuts': cuts})
+            out.append({'kind': 'prop', 'docs': docs, 'filters': flts, 'cuts': cuts, 'ele': i % 3 == 0})
         for i in range(40 if tier == 'quick' else 1500):
             doc = G.gen_reply(rng, 'm1')
             out.append({'kind': 'prop', 'docs': [doc], 'filters': [G.paths_filter(rng, doc)], 'cuts': []})
@@ -87,10 +90,10 @@ class C18(Check):
             doc = case['doc']
             if case['lookup'] == 'u':
                 doc = doc.replace('message-id="m1"', 'message-id="zz"')
-            r = run(True, [case['filter']], [(doc + ']]>]]>').encode()])
+            r = run(True, [case['filter']], [(doc + ']]>]]>').encode()], as_element=case.get('ele', False))
             return {'reply': r['replies'][0], 'error': r['error']}
         stream, segs = self._segs(case)
-        r = run(True, case['filters'], segs)
+        r = run(True, case['filters'], segs, as_element=case.get('ele', False))
         off = run(False, [None] * len(case['docs']), segs)
         return {'replies': r['replies'], 'error': r['error'], 'off': off['replies']}
 
